@@ -42,7 +42,7 @@ pub fn print_impl_wire_size<W: std::fmt::Write, T: FromTemplate>(
                     writeln!(w, "4 + match self {{")?;
                     // Iterate over all the variants of v, including the
                     // default.
-                    for case in v.cases.iter().chain(v.default.iter()) {
+                    for case in v.cases.iter() {
                         // A single case statement may have many case values tied to it
                         // if fallthrough values are used:
                         //
@@ -71,8 +71,15 @@ pub fn print_impl_wire_size<W: std::fmt::Write, T: FromTemplate>(
                         writeln!(w, "Self::{} => 0,", NonDigitName(SafeName(c.as_str())))?;
                     }
 
-                    if v.default.is_some() {
-                        writeln!(w, "Self::default => 0,")?;
+                    // A default case carrying data is decoded into the single
+                    // "default" variant, whatever case values fall through to it.
+                    if let Some(ref case) = v.default {
+                        write!(w, "Self::default(inner) => inner.wire_size()")?;
+                        if case.contains_opaque() {
+                            writeln!(w, r#" + pad_length(inner.wire_size()),"#)?;
+                        } else {
+                            writeln!(w, ",")?;
+                        }
                     }
 
                     writeln!(w, "}}")?;
